@@ -19,6 +19,9 @@ def run(prog, rep, tier):
     g = r_core.p5(prog, tier)
     apply(rep, "P5", "strings compare bytewise over their whole length (value_str::cmp interpreted on strings with embedded NUL and bytes >= 0x80)",
           ([i for i in g[0] if i[0] == "P5:cmp"], [f for f in g[1] if f["key"] == "P5:cmp"]), 1)
+    g = r_core.p6(prog, tier)
+    apply(rep, "P6", "sequences compare by length, then element-wise (value_seq::cmp interpreted on abstract sequences)",
+          ([i for i in g[0] if i[0] == "P6:cmp"], [f for f in g[1] if f["key"] == "P6:cmp"]), 1)
     apply(rep, "O7", "units compare equal exactly when they are the same unit", r_order.o7(prog), 2)
     apply(rep, "O6", "integer comparison agrees with mathematical order on a representative signed/unsigned domain", r_order.o6(prog), 2)
     apply(rep, "O5", "the order on whole stacks is a strict weak order with == as its equivalence", r_order.o5(prog, tier), 1)
